@@ -12,7 +12,10 @@ PID = 'C04'
 HEADER = []
 T0 = 2000000000
 TIMEOUT = 3000   # real-thread cases queue for one of <par> machine-wide slots
-RULE = ('pcr: the REAL Checkable::ProcessCheckResult (local, origin null) under the virtual clock from the never-checked state: all result '
+RULE = ('exec: the REAL Checkable::ExecuteCheck under the virtual clock with a command that keeps its result: control, stored result '
+        'stamped in the future, passive result racing the start, stale results, passive in flight + random mixes; after ANY result '
+        'processing the next ExecuteCheck must start the command; run-quiet: max=1, slot holder paused/deleted mid-check, silence '
+        'afterwards (lost wake-up); run: 10 % of the checkables deliver every 3rd result stamped older than the stored one; pcr: the REAL Checkable::ProcessCheckResult (local, origin null) under the virtual clock from the never-checked state: all result '
         'histories of length <= 3 over {OK,WARNING,CRITICAL} x {host,service} x max_check_attempts {1,2,3} (covers every pre state type x '
         'has-result x OK/non-OK x max 1/>1 combination) + random longer ones incl. passive results; next_check diffed against the '
         'model with the interval of the POST-state; unc: random (now, check_interval, retry_interval in quarter seconds incl. the interval<=1 boundary, soft/hard, with/without '
@@ -76,6 +79,54 @@ def pcr_cases(rnd, nrand):
     return cases
 
 
+def exec_cases(rnd, nrand):
+    """the REAL Checkable::ExecuteCheck under the virtual clock with a command that keeps its result (like a plugin):
+    results that are rejected as older than the stored one (future-stamped stored result; passive result racing the
+    start of the check), then the next ExecuteCheck must really execute"""
+    cases = []
+    def mk(kind, mx, ops, fam):
+        t = T0 + rnd.randint(0, 10 ** 6)
+        lines = ['sch_cnew now=%d kind=%s max=%d ci4=%d ri4=%d off=%d' % (t, kind, mx, rnd.choice((8, 20, 40)), rnd.choice((2, 4, 8)), rnd.randint(0, 2 ** 31 - 1))]
+        for op in ops:
+            t += rnd.choice((2, 3, 7))
+            k = op[0]
+            if k == 'exec': lines.append('sch_exec now=%d' % t)
+            elif k == 'race': lines.append('sch_exec now=%d race=%d' % (t, op[1])); t += 1
+            elif k == 'fin': lines.append('sch_finish now=%d state=%d' % (t, op[1]))
+            elif k == 'passive': lines.append('sch_cr now=%d state=%d active=0' % (t, op[1]))
+            elif k == 'future': lines.append('sch_cr now=%d state=%d active=0 start=%d' % (t, op[1], t + op[2])); t += op[2]
+            elif k == 'stale': lines.append('sch_cr now=%d state=%d active=%d start=%d' % (t, op[1], op[2], t - 1000))
+        return {'lines': lines, 'tags': {'family': fam}}
+    for kind in ('host', 'svc'):
+        for mx in (1, 3):
+            for st in (0, 2):
+                cases.append(mk(kind, mx, [('exec',), ('fin', st), ('exec',), ('exec',), ('fin', 0), ('exec',), ('fin', st)], 'exec-control'))
+                cases.append(mk(kind, mx, [('exec',), ('future', st, 5), ('fin', 0), ('exec',), ('fin', st), ('exec',), ('fin', 0)], 'exec-skewed-clock'))
+                cases.append(mk(kind, mx, [('race', st), ('fin', 0), ('exec',), ('fin', st), ('exec',), ('fin', 0)], 'exec-passive-racing-start'))
+                cases.append(mk(kind, mx, [('exec',), ('fin', 0), ('exec',), ('stale', st, 1), ('exec',), ('fin', 0), ('exec',)], 'exec-stale-result'))
+                cases.append(mk(kind, mx, [('exec',), ('passive', st), ('fin', 0), ('exec',), ('fin', 0)], 'exec-passive-in-flight'))
+    for _ in range(nrand):
+        ops = []
+        for _ in range(rnd.randint(3, 14)):
+            r = rnd.random()
+            if r < 0.35: ops.append(('exec',))
+            elif r < 0.45: ops.append(('race', rnd.choice((0, 2))))
+            elif r < 0.75: ops.append(('fin', rnd.choice((0, 0, 1, 2, 3))))
+            elif r < 0.83: ops.append(('passive', rnd.choice((0, 2))))
+            elif r < 0.92: ops.append(('future', rnd.choice((0, 2)), rnd.choice((1, 5, 30))))
+            else: ops.append(('stale', rnd.choice((0, 2)), rnd.randint(0, 1)))
+        cases.append(mk(rnd.choice(('host', 'svc')), rnd.choice((1, 2, 3)), ops, 'exec-random'))
+    return cases
+
+
+def quiet_case(rnd, variant, maxc=1, dur=7000):
+    """no storm: the slot holder is paused (1) / deleted (2) mid-check, the completion that frees the slot notifies nobody,
+    other checkables are due - the lost-wake-up scenario; found by the head-stays-due-with-a-free-slot criterion"""
+    line = 'sch_run seed=%d n=%d max=%d dur=%d tp=4 imin=100 imax=300 slow=0 thr=0 stale=0 rate=100 quiet=%d hold=%d slack=2500 tail=500 par=5' % (
+        rnd.randint(1, 10 ** 6), rnd.choice((2, 3, 4)), maxc, dur, variant, rnd.choice((400, 600, 900)))
+    return {'lines': [line], 'tags': {'family': 'run-quiet', 'n': 4, 'max': maxc}}
+
+
 def run_case(rnd, n, maxc, dur, rate=None, par=4, tail=2500):
     tp = rnd.choice((4, 8, 16))
     imin = rnd.choice((50, 100)) if n <= 80 else 200
@@ -115,12 +166,16 @@ def generate(seed, tier):
         cases.append(run_case(rnd, n, m, dur, par=5 if tier == 'quick' else 4))
     for _ in range(nunc):
         cases.append(unc_case(rnd, k))
+    for v in (1, 2):
+        for _ in range({'quick': 1, 'search': 1}.get(tier, 3)):
+            cases.insert(0, quiet_case(rnd, v))
     cases += pcr_cases(rnd, {'quick': 150, 'search': 100}.get(tier, 2000))
+    cases += exec_cases(rnd, {'quick': 150, 'search': 100}.get(tier, 2000))
     return cases
 
 
 def canon(lines):
-    return [l for l in lines if l.startswith('unc ') or l.startswith('pcr ') or l.startswith('CRASH') or l.startswith('HANG') or l.startswith('HARNESS') or l.startswith('NOT-RUN')]
+    return [l for l in lines if l.startswith('unc ') or l.startswith('pcr ') or l.startswith('exec ') or l.startswith('fin ') or l.startswith('CRASH') or l.startswith('HANG') or l.startswith('HARNESS') or l.startswith('NOT-RUN')]
 
 
 def nontrivial(case, impl_lines):
@@ -135,6 +190,8 @@ def nontrivial(case, impl_lines):
 
 def classify(case, detail, impl_lines):
     w = detail.split()[0] if detail else ''
+    if w == 'single-flight' and 'wedged' in detail:
+        return 'wedged-det' if 'sch_exec' in detail else 'wedged'
     if w == 'next-check' and 'after-result' in detail:
         return 'next-check-after-result'   # deterministic (virtual clock) ProcessCheckResult case: replay always reproduces
     return {'single-flight': 'single-flight', 'concurrency': 'concurrency', 'twice': 'scheduled-twice', 'dropped': 'dropped',
